@@ -219,10 +219,29 @@ def parseCryptWith : List (List Char × HashKind) → List Char → HashKind
 
 def parseCrypt (s : List Char) : HashKind := parseCryptWith prefixTable s
 
-/-- `CryptPw::check_pw`; `verify k hash cred` is the scheme's own verification. -/
+/-- `crypt.rsplit('$').next()`: the text after the last `$` (everything if there is none). -/
+def digestOf (s : List Char) : List Char :=
+  (s.reverse.takeWhile (· != '$')).reverse
+
+/-- `b == b'.' || b == b'/' || b.is_ascii_alphanumeric()` -/
+def digestChar (c : Char) : Bool := c == '.' || c == '/' || c.isAlphanum
+
+/-- `sha_crypt_digest_is_canonical(crypt, len, last_chars)`; no guard for kinds without a shape. -/
+def digestCanonical (shape : Option (Nat × List Char)) (s : List Char) : Bool :=
+  match shape with
+  | none => true
+  | some (len, lastChars) =>
+    let d := digestOf s
+    d.length == len && d.all digestChar &&
+      (match d.getLast? with
+        | some c => lastChars.contains c
+        | none => false)
+
+/-- `CryptPw::check_pw`; `verify k hash cred` is the scheme's own verification, reached only
+behind the digest-shape guard. -/
 def checkPw (verify : HashKind → List Char → Nat → Bool) (s : List Char) (cred : Nat) : Bool :=
   let k := parseCrypt s
-  if kindVerifies k then verify k s cred else false
+  if kindVerifies k then digestCanonical (digestShape k) s && verify k s cred else false
 
 /-- `EtcShadow`: name, password field, `epoch_expire_seconds`. -/
 structure Shadow where
